@@ -417,6 +417,9 @@ impl Ctx {
                         };
                         let mut runner = TestRunner::new_with_rng(config, rng);
                         let failed = AtomicBool::new(false);
+                        // failures of a nondeterministic system under test may not reproduce on
+                        // the final re-run: remember what was seen, keyed by scenario
+                        let seen_fail: RefCell<Vec<(u64, Failure)>> = RefCell::new(Vec::new());
                         let strat = strategy();
                         let res = runner.run(&strat, |s| {
                             if stop_all.load(Ordering::Relaxed) && !failed.load(Ordering::Relaxed) {
@@ -441,6 +444,7 @@ impl Ctx {
                                     } else {
                                         failed.store(true, Ordering::Relaxed);
                                         stop_all.store(true, Ordering::Relaxed);
+                                        seen_fail.borrow_mut().push((hash_json(&s), f.clone()));
                                         Err(TestCaseError::fail(f.signature.clone()))
                                     }
                                 }
@@ -450,9 +454,19 @@ impl Ctx {
                             Ok(()) => {}
                             Err(TestError::Fail(_, s)) => {
                                 let o = guarded(run, &s);
-                                let f = o.failure.unwrap_or(Failure {
-                                    signature: "flaky: failure did not reproduce on re-run".into(),
-                                    detail: format!("{s:?}"),
+                                let f = o.failure.unwrap_or_else(|| {
+                                    let h = hash_json(&s);
+                                    let seen = seen_fail.borrow();
+                                    match seen.iter().rev().find(|(k, _)| *k == h).or(seen.last()) {
+                                        Some((_, f)) => Failure {
+                                            signature: f.signature.clone(),
+                                            detail: format!("(did not reproduce on the final re-run of the shrunk case: the failure is nondeterministic) {}", f.detail),
+                                        },
+                                        None => Failure {
+                                            signature: "flaky: failure did not reproduce on re-run".into(),
+                                            detail: format!("{s:?}"),
+                                        },
+                                    }
                                 });
                                 ctx.report_violation(&sub, &s, &f);
                             }
